@@ -1,15 +1,27 @@
 (* C02 — eigen-decomposition.  Property theorems only (each closed by `exact <lemma>`); their
    assumptions are printed by the check.
 
-   Level: translation validation with supporting proofs.  The iterative cores (tred2, the QL sweeps
-   of tql2, elmhes, eltran, the QR sweeps and back-substitution of hqr2) are NOT modelled; for them the
-   property is decided per run by the validators `check_evd_sym` / `check_evd_gen`
-   (SC.C02.Validator), whose soundness is proved here (C02_evd_*_validated_partial).  Proved for
-   all inputs and sizes: everything the solvers do AFTER the iterations (both reorderings, the
-   back-transformation of balancing) preserves what the validators check, and the closed 2x2
-   formulas of hqr2 return the block's spectrum. *)
+   Symmetric clause: PARTIAL CORRECTNESS THEOREM in exact arithmetic.  tred2, the QL sweeps of tql2 and
+   its final sort are modelled (ModelTred2.v, ModelTql2.v, Model.v) and tied to the code by
+   correspondence (tred2 bit-exact, tql2 by tolerance because of libm's hypot).  Proved for every order
+   and every symmetric matrix: tred2 returns an orthogonal V with A V = V tridiag(d, e)
+   (theorems C02_tred2_...); every plane rotation and every whole QL sweep preserves 'V orthogonal and
+   A V = V T' (theorems C02_tql2_...); IF the exact-arithmetic model of evd(true) returns THEN A V = V diag(d),
+   V^T V = I, d non-increasing, e = 0 (C02_evd_sym_partial_correctness).  NOT proved: that it
+   returns (convergence of the QL iteration), and the effect of rounding - the floating-point run is
+   still decided per run by the validator `check_evd_sym` (C02_evd_sym_validated_partial).
+
+   General clause: translation validation with supporting proofs.  elmhes + eltran are modelled and
+   proved (A Z = Z H, H upper Hessenberg, Z invertible: theorems C02_elmhes_...); balance/balbak, `sort` and the
+   2x2 formulas of hqr2 as before; hqr2's QR sweeps and back-substitution are NOT modelled (too
+   long, not attempted): for them the property is decided per run by `check_evd_gen`
+   (C02_evd_gen_validated_partial). *)
 From Coq Require Import List Arith Bool Permutation Reals Floats Lia Lra.
 From SC Require Import Base.Num C02.Model C02.Validator C02.ProofsSort C02.ProofsSpec C02.ProofsValid.
+From SC Require Import C02.FunMat C02.ModelTred2 C02.ProofsHouse C02.ProofsTred2Step C02.ProofsTred2.
+From SC Require Import C02.ModelTql2 C02.ProofsTql2Rot C02.ProofsTql2Sweep C02.ProofsTql2 C02.ProofsTql2Example.
+From SC Require Import C02.ModelSymEvd C02.ProofsSymEvd.
+From SC Require Import C02.ModelHess C02.ProofsHessAlg C02.ProofsHessStep C02.ProofsHess C02.ProofsHessGhost.
 Import ListNotations.
 
 (* ---------------- evd.rs `sort` (end of evd(false)) ---------------- *)
@@ -114,16 +126,157 @@ Theorem C02_evd_gen_validated_partial : forall tol1 tol2 tolv A V d e,
              (map (map F2R) A) (map (map F2R) V) (map F2R d) (map F2R e).
 Proof. exact check_evd_gen_sound. Qed.
 
-(* The full statements, which are NOT proved: they quantify over the solver's output for every input;
-   `solve_sym` / `solve_gen` stand for evd(true) / evd(false) (tred2+tql2, resp. balance+elmhes+eltran+
-   hqr2+balbak+sort), whose iterative parts are not modelled; u is the unit roundoff and c the constant
-   of the rounding-error bound.  Missing: convergence of the QL / QR sweeps and a backward error
-   analysis of the reductions. *)
-Definition C02_evd_sym_full_statement
+(* ---------------- tred2: Householder tridiagonalisation with accumulation ---------------- *)
+(* Matrices are functions on indices (FunMat.v); `tridiag d e` has d on the diagonal and e i coupling
+   i-1 and i.  For EVERY order n >= 1 and EVERY symmetric A the returned V is orthogonal and
+   A V = V tridiag(d, e)  (equivalently V^T A V = tridiag(d, e)); e[0] = 0. *)
+Theorem C02_tred2_tridiagonalises : forall n (A : mat), 1 <= n -> msym n A ->
+  let '(V, d, e) := tred2 ROps n A in
+  morth n V /\ meq n (mmul n A V) (mmul n V (tridiag d e)) /\ e 0 = 0%R.
+Proof. exact tred2_correct. Qed.
+
+(* the same on lists, in the vocabulary of the validators *)
+Theorem C02_tred2_rows : forall (A : list (list R)) V d e,
+  let n := length A in
+  square n A ->
+  (forall i j, i < n -> j < n -> nth j (nth i A []) 0%R = nth i (nth j A []) 0%R) ->
+  tred2_rows ROps A = Some (V, d, e) ->
+  square n V /\ length d = n /\ length e = n /\ nth 0 e 0%R = 0%R /\
+  (forall i j, i < n -> j < n -> rdot (rcol i V) (rcol j V) = if i =? j then 1%R else 0%R) /\
+  (forall i j, i < n -> j < n ->
+     rdot (nth i A []) (rcol j V)
+     = rsum n (fun k => (nth k (nth i V []) 0 * tridiag (vfun 0%R d) (vfun 0%R e) k j)%R)).
+Proof. exact tred2_rows_correct_lists. Qed.
+
+(* One step `i` of the reduction (state (V, d, e), row i in d): the represented matrix `cur` is
+   conjugated by P = I - u u^T / H, where (u, H) are what the step stores (column i of V above the
+   diagonal, d[i]) and EITHER H <> 0 and u^T u = 2H (Householder reflector) OR u = 0 (then P = I:
+   this is the `scale == 0` branch, see the next theorem). *)
+Theorem C02_tred2_step_similarity : forall n i (V : nat -> nat -> R) (d e : nat -> R),
+  1 <= i < n -> (forall b, b < i -> d b = V i b) ->
+  let '(V', d', e') := t2_step ROps i (V, d, e) in
+  exists u H,
+    reflok n i u H /\
+    meq n (cur (i - 1) V' e') (mmul n (refl u H) (mmul n (cur i V e) (refl u H))) /\
+    d' i = H /\ (forall k, k < i -> V' k i = u k) /\
+    (forall r, i < r -> d' r = d r) /\ (forall r, i < r -> e' r = e r) /\
+    (forall r c, (i < c \/ i < r \/ (r = i /\ c = i)) -> V' r c = V r c) /\
+    (forall b, b < i - 1 -> d' b = V' (i - 1) b) /\ (forall c, c < i -> V' i c = 0%R).
+Proof. exact t2_step_sim. Qed.
+
+(* The `scale == 0` branch: the row is already zero left of the diagonal; the state then represents
+   the SAME matrix one row further up, e[i] = 0, and what is stored is u = 0, h = d[i] = 0 - so
+   the accumulation phase (`if h != 0`) skips the index. *)
+Theorem C02_tred2_skip_branch : forall n i (V : nat -> nat -> R) (d e : nat -> R),
+  1 <= i < n -> (forall b, b < i -> d b = V i b) ->
+  rsum i (fun k => Rabs (d k)) = 0%R ->
+  let '(V', d', e') := t2_step ROps i (V, d, e) in
+  d' i = 0%R /\ e' i = 0%R /\
+  (forall k, k < i -> V' k i = 0%R /\ V' i k = 0%R) /\
+  meq n (cur (i - 1) V' e') (cur i V e).
+Proof. exact t2_step_skip. Qed.
+
+(* ---------------- tql2: the QL sweeps (partial correctness) ---------------- *)
+(* One plane rotation, with the code's r = p.hypot(e_i) <> 0, c = p / r, s = e_i / r: the update of
+   columns i, i+1 of V keeps V orthogonal and turns A V = V M into A V' = V' (G^T M G). *)
+Theorem C02_tql2_rotation_preserves_invariant : forall n (A V M : mat) i p ei,
+  S i < n -> hypR p ei <> 0%R ->
+  let r := hypR p ei in
+  let c := (p / r)%R in
+  let s := (ei / r)%R in
+  let V' := rot_cols ROps n i c s V in
+  morth n V -> meq n (mmul n A V) (mmul n V M) ->
+  morth n V' /\ meq n (mmul n A V') (mmul n V' (rotM i c s M)).
+Proof. exact ql_rotation_invariant. Qed.
+
+(* The whole QL part (everything before the final sort) in exact arithmetic: eps := 0, i.e. an
+   off-diagonal element is 'negligible' only when it is exactly zero; hypot := sqrt(a^2+b^2).  The
+   last component of the result is the GHOST flag 'no rotation had r = 0' (ModelTql2.v).
+   IF the routine returns THEN e = 0, V is orthogonal and A V = V diag(d).  Convergence (that
+   `Some` is returned, within 29 sweeps per eigenvalue) is NOT proved. *)
+Theorem C02_tql2_ql_partial_correctness : forall n (A V0 : mat) (d0 e0 : nat -> R) (V : mat) (d e : nat -> R),
+  morth n V0 ->
+  meq n (mmul n A V0) (mmul n V0 (tridiag d0 e0)) ->
+  tql2_ql ROps hypR 0%R n V0 d0 e0 = Some (V, d, e, true) ->
+  (forall a, a < n -> e a = 0%R) /\ morth n V /\ meq n (mmul n A V) (mmul n V (mdiag d)).
+Proof. exact tql2_ql_partial_correct. Qed.
+
+(* ---------------- the symmetric clause as a partial-correctness theorem ---------------- *)
+(* evd_sym_model = tred2 ; QL part of tql2 ; final sort (ModelSymEvd.v), over R with eps := 0.
+   For every order and every symmetric A: IF the model returns (ghost flag true) THEN the result
+   satisfies the symmetric clause EXACTLY (tolerance 0): A V = V diag(d), V^T V = I, d non-increasing,
+   e = 0.  (Replaces the former Definition C02_evd_sym_full_statement.) *)
+Theorem C02_evd_sym_partial_correctness : forall (A : list (list R)) V d e,
+  let n := length A in
+  square n A ->
+  (forall i j, i < n -> j < n -> nth j (nth i A []) 0%R = nth i (nth j A []) 0%R) ->
+  evd_sym_model ROps hypR 0%R A = Some (V, d, e, true) ->
+  evd_sym_ok 0 A V d e.
+Proof. exact evd_sym_partial_correct. Qed.
+
+(* What is still NOT proved for the symmetric clause, stated in full: total correctness of the
+   FLOATING-POINT routine.  `solve_sym` stands for evd(true) on binary64, u for the unit roundoff, c for
+   the constant of the rounding-error bound.  Missing: (1) convergence of the QL iteration (the
+   theorem above assumes the model returns; the code panics after 29 sweeps), (2) a backward error
+   analysis of tred2 / tql2 (the theorem above is about exact arithmetic).  Per run the floating-point
+   result is decided by the validator (C02_evd_sym_validated_partial). *)
+Definition C02_evd_sym_float_total_statement
   (solve_sym : list (list float) -> list float * list float * list (list float)) (c u : R) : Prop :=
   forall A, (forall i j, nth j (nth i A []) 0%float = nth i (nth j A []) 0%float) ->
     let '(d, e, V) := solve_sym A in
     evd_sym_ok (c * INR (length A) * u) (map (map F2R) A) (map (map F2R) V) (map F2R d) (map F2R e).
+
+(* ---------------- elmhes + eltran: reduction to Hessenberg form ---------------- *)
+(* For every order n >= 1 and EVERY matrix A: with (A', perm) = elmhes A, H = the upper Hessenberg
+   part of A' (what hqr2 reads), Z = eltran(A', I, perm):  A Z = Z H. *)
+Theorem C02_elmhes_eltran_similarity : forall n (A : mat), 1 <= n ->
+  let A' := fst (elmhes ROps n A) in
+  let perm := snd (elmhes ROps n A) in
+  let Z := eltran ROps n A' perm (eye ROps) in
+  meq n (mmul n A Z) (mmul n Z (hess A')).
+Proof. exact hess_similarity. Qed.
+
+(* Z has a two-sided inverse (so H = Z^-1 A Z has the spectrum of A) *)
+Theorem C02_elmhes_eltran_invertible : forall n (A : mat), 1 <= n ->
+  let A' := fst (elmhes ROps n A) in
+  let perm := snd (elmhes ROps n A) in
+  let Z := eltran ROps n A' perm (eye ROps) in
+  exists W, meq n (mmul n Z W) mid /\ meq n (mmul n W Z) mid.
+Proof. exact hess_Z_invertible. Qed.
+
+(* structure: Z = (P_1 L_1)(P_2 L_2)...(P_{n-2} L_{n-2}), P_m the transposition m <-> perm[m] >= m,
+   L_m unit lower triangular with the stored multipliers; first row and column of Z are those of I *)
+Theorem C02_eltran_product_structure : forall n (A : mat), 1 <= n ->
+  let A' := fst (elmhes ROps n A) in
+  let perm := snd (elmhes ROps n A) in
+  let Z := eltran ROps n A' perm (eye ROps) in
+  meq n Z (Zprod n A' perm 1 (n - 2)) /\
+  (forall m, 1 <= m -> m + 1 < n -> m <= perm m < n) /\
+  (forall c, c < n -> Z 0 c = mid 0 c) /\
+  (forall r, r < n -> Z r 0 = mid r 0).
+Proof. exact hess_Z_product. Qed.
+
+(* what the in-place storage means: running the same eliminations WITHOUT storing multipliers in the
+   matrix (`elmhes_ghost`: full-range swaps and row operations, multipliers recorded aside in Y) yields
+   exactly H = hess A' (so H really is the reduced matrix, zero below the sub-diagonal), and the
+   entries of A' below the sub-diagonal are exactly the multipliers *)
+Theorem C02_elmhes_reduced_matrix : forall n (A : mat), 1 <= n ->
+  let A' := fst (elmhes ROps n A) in
+  let perm := snd (elmhes ROps n A) in
+  let Rg := fst (fst (elmhes_ghost n A)) in
+  let Y := snd (fst (elmhes_ghost n A)) in
+  let gperm := snd (elmhes_ghost n A) in
+  (forall r c, r < n -> c < n -> Rg r c = hess A' r c) /\
+  (forall r c, r < n -> c < n -> c + 1 < r -> A' r c = Y r c) /\
+  (forall r c, r < n -> c < n -> r <= c + 1 -> Y r c = 0%R) /\
+  (forall k, gperm k = perm k).
+Proof. exact elmhes_ghost_spec. Qed.
+
+(* The full statement of the general clause, which is NOT proved: it quantifies over the solver's
+   output for every input; `solve_gen` stands for evd(false) (balance+elmhes+eltran+hqr2+balbak+sort);
+   hqr2's QR sweeps and back-substitution are not modelled (not a target: too long); u is the unit
+   roundoff and c the constant of the rounding-error bound.  Missing: a model and the partial
+   correctness of hqr2, convergence of the QR sweeps, and a backward error analysis. *)
 Definition C02_evd_gen_full_statement
   (solve_gen : list (list float) -> list float * list float * list (list float)) (c u : R) : Prop :=
   forall A, let '(d, e, V) := solve_gen A in
@@ -186,3 +339,56 @@ Example C02_check_gen_rejects :
   check_evd_gen 0x1p-40%float 0x1p-40%float 0x1p-40%float
     [[2; 0]; [0; 1]]%float [[0; 1]; [1; 0]]%float [2; 1]%float [0; 0]%float = false.
 Proof. vm_compute. reflexivity. Qed.
+
+(* ---------------- the new hypotheses are satisfiable ---------------- *)
+(* tred2: the only hypotheses are n >= 1 and symmetry *)
+Example C02_tred2_instance :
+  let A := mfun 0%R [[4; 1; 2]; [1; 2; 0]; [2; 0; 3]]%R in
+  msym 3 A /\ exists V d e, tred2 ROps 3 A = (V, d, e) /\ morth 3 V /\
+                            meq 3 (mmul 3 A V) (mmul 3 V (tridiag d e)).
+Proof.
+  cbv zeta. assert (Hs : msym 3 (mfun 0%R [[4; 1; 2]; [1; 2; 0]; [2; 0; 3]]%R)).
+  { intros i j Hi Hj. destruct i as [|[|[|i]]]; destruct j as [|[|[|j]]]; try lia; reflexivity. }
+  split; [exact Hs|].
+  pose proof (tred2_correct 3 _ ltac:(lia) Hs) as H.
+  destruct (tred2 ROps 3 _) as [[V d] e]. exists V, d, e. destruct H as (H1 & H2 & _). auto.
+Qed.
+
+(* tql2: T = [[0,12],[12,7]], V0 = I: one real rotation (3-4-5), returns d = (-9, 16) with the flag true *)
+Example C02_tql2_instance : exists V d e,
+  morth 2 mid /\ meq 2 (mmul 2 xA mid) (mmul 2 mid (tridiag xd0 xe0)) /\
+  tql2_ql ROps hypR 0%R 2 mid xd0 xe0 = Some (V, d, e, true) /\
+  d 0 = (-9)%R /\ d 1 = 16%R /\
+  morth 2 V /\ meq 2 (mmul 2 xA V) (mmul 2 V (mdiag d)).
+Proof. exact tql2_ql_partial_correct_example. Qed.
+
+(* the composed model returns with the flag true (order 1; the instance with a real rotation is the
+   previous one, the stages of the composition have no other hypothesis) *)
+Example C02_evd_sym_instance : forall a : R, exists V d e,
+  evd_sym_model ROps hypR 0%R [[a]] = Some (V, d, e, true).
+Proof.
+  intros a. unfold evd_sym_model, tred2_rows. cbn [length].
+  unfold tred2, t2_reduce, t2_finish, t2_init. cbn [Nat.sub ford forn].
+  cbn [ROps o0 o1].
+  unfold tql2_ql_rows. cbn [length vlist seq map].
+  unfold tql2_ql. cbn [Nat.eqb forn]. unfold ql_outer.
+  cbn [qd qe qV qf qok ROps o0 o1 oabs oadd omul oleb].
+  set (E := e_shift ROps 1 _). set (T1 := omax ROps 0%R _).
+  assert (Hm : find_m ROps 0%R 1 E T1 (1 - 0 + 1) 0 = 0).
+  { cbn [Nat.sub Nat.add find_m Nat.ltb Nat.leb]. cbn [ROps oleb oabs omul].
+    replace (E 0) with 0%R by reflexivity. rewrite Rabs_R0, Rmult_0_r.
+    replace (Rleb 0 0) with true by (symmetry; apply Rleb_true; lra). reflexivity. }
+  rewrite Hm. cbn [Nat.ltb Nat.leb].
+  destruct (tql2_sort_ops ROps _ _) as [d3 C3].
+  eexists. eexists. eexists. reflexivity.
+Qed.
+
+(* elmhes/eltran: a 3 x 3 instance in which rows/columns 1 and 2 are really interchanged *)
+Example C02_elmhes_instance :
+  let A' := fst (elmhes ROps 3 ex3) in
+  let perm := snd (elmhes ROps 3 ex3) in
+  let Z := eltran ROps 3 A' perm (eye ROps) in
+  meq 3 (mmul 3 ex3 Z) (mmul 3 Z (hess A')) /\
+  (exists W, meq 3 (mmul 3 Z W) mid /\ meq 3 (mmul 3 W Z) mid) /\
+  perm 1 = 2.
+Proof. exact ex3_similarity. Qed.
